@@ -58,6 +58,13 @@ fn strip_caret_letters(a: &str) -> (String, bool) {
     (a.into_iter().collect(), hit)
 }
 
+/// remove every literal `^8`, repeatedly (removing one can bring a caret and an 8 together)
+fn strip_c8(a: &str) -> String {
+    let mut a = a.to_string();
+    while a.contains("^8") { a = a.replace("^8", ""); }
+    a
+}
+
 fn wire_class(s: &str) -> &'static str {
     let rep = crate::text::repertoire();
     let is_ni = |ch: char| rep.not_inverted.iter().any(|(_, x)| *x == ch);
@@ -65,13 +72,13 @@ fn wire_class(s: &str) -> &'static str {
     // take the recorded ingredients out one class at a time, cumulatively; the clause must hold for what is left
     let (a, hit1) = strip_caret_letters(s);
     if hit1 && wire_ok(&a) { return "caret-then-codepage-letter"; }
-    let b = a.replace("^8", "");
+    let b = strip_c8(&a);
     let hit2 = b.len() != a.len();
     if hit2 && wire_ok(&b) { return if hit1 { "caret-then-codepage-letter" } else { "colour8-desync" }; }
     let c: String = b.chars().filter(|ch| !is_ni(*ch) && !is_t5(*ch)).collect();
     let hit3 = c.len() != b.len();
     let (d, hit4) = strip_caret_letters(&c);
-    let d = d.replace("^8", "");
+    let d = strip_c8(&d);
     if (hit3 || hit4) && wire_ok(&d) {
         if hit1 || hit4 { return "caret-then-codepage-letter"; }
         if hit2 { return "colour8-desync"; }
